@@ -4,6 +4,8 @@ Property theorems only (helper lemmas live in AGH/Lemmas/ClientID.lean).
 All theorems quantify over every byte string / request context.
 -/
 import AGH.Lemmas.ClientID
+import AGH.Lemmas.ClientIDE2E
+import AGH.Gen.C16Sources
 namespace AGH.C16
 open AGH AGH.Bytes
 
@@ -300,5 +302,507 @@ theorem C16_plain_attributed_to_nobody (c : Cache) (r : Nat) (ctx : Ctx)
   have h := C16_plain_none ctx hp
   have : (handleBefore c r ctx).2 = .ok [] := by simp [handleBefore, h]
   exact (C16_attribution_is_own c r ctx [] this).1
+
+end AGH.C16
+
+/-! ## End to end: from the wire to the consumers of the ClientID
+
+`E2E.step` is one request through the whole server: request-target parsing and
+percent-decoding (net/url), routing (`ServeMux` with the two patterns AdGuard
+Home registers), the unencrypted-DoH gate, dnsproxy's DNS-message check, the
+strict-SNI handshake gate of DoT/DoQ, `HandleBefore`, the ClientID cache under
+dnsproxy's request counter, `processInitial`.  `E2E.specE2E` is the monitor the
+driver evaluates on what a REAL server did (answer / SERVFAIL / HTTP status /
+reset / refused handshake, and the identity seen by the query log, the
+statistics, the client-upstream lookup and the client-filtering lookup). -/
+namespace AGH.C16.E2E
+open AGH AGH.Bytes AGH.C16
+
+theorem specOK_error_irrel (c : Ctx) (e e' : Err) : specOK c (.error e) = specOK c (.error e') := rfl
+
+/-- What `step` does with a request that reaches the ClientID stage: the
+request counter and the cache never change the attribution. -/
+theorem step_ok (cf : Conf) (st : St) (r : Req) (c : Ctx) (h : front cf r = .ok c) :
+    (step cf st r).2 =
+      match clientIDFromCtx c with
+      | .ok id => .ans id
+      | .error _ => .servfail := by
+  unfold step
+  simp only [h]
+  cases hc : clientIDFromCtx c with
+  | error e => simp [handleBefore, hc]
+  | ok id =>
+    by_cases hid : id = []
+    · simp [handleBefore, hc, hid, attributed, Cache.get_del]
+    · simp [handleBefore, hc, hid, attributed, Cache.get_set]
+
+theorem step_error (cf : Conf) (st : St) (r : Req) (o : Out) (h : front cf r = .error o) :
+    step cf st r = (st, o) := by
+  unfold step; simp only [h]
+
+/-- Go's `url.unescape` (the two index loops, `EscapeError` on a bad escape) is
+percent-decoding as RFC 3986 defines it — for every byte string. -/
+theorem C16_unescape_is_pct_decoding (s : Bytes) : unescape s = pctDecode s :=
+  unescape_eq_pctDecode s
+
+/-- **The whole pipeline meets the spec**, for every configuration, every server
+state (any request-counter value, any content of the ClientID cache — hence any
+history, any number of reconfigurations) and every request: raw target, server
+name, Host header, headers, EDNS options, peer. -/
+theorem C16_e2e_meets_spec (cf : Conf) (st : St) (r : Req) :
+    specE2E cf r (obsOf (step cf st r).2) = true := by
+  cases hf : front cf r with
+  | error o =>
+    rw [step_error cf st r o hf]
+    rcases front_error_cls cf r o hf with ⟨n, rfl⟩ | rfl | rfl
+    · simp [specE2E, obsOf, attributedJustified, Obs.seen, answeredAttributed, failedNotProcessed,
+        servfailHasReason, hsOnlyStrict]
+    · simp [specE2E, obsOf, attributedJustified, Obs.seen, answeredAttributed, failedNotProcessed,
+        servfailHasReason, hsOnlyStrict]
+    · obtain ⟨hs, htr⟩ := front_hs cf r hf
+      rcases htr with htr | htr <;>
+      simp [specE2E, obsOf, attributedJustified, Obs.seen, answeredAttributed, failedNotProcessed,
+        servfailHasReason, hsOnlyStrict, hs, htr]
+  | ok c =>
+    rw [step_ok cf st r c hf]
+    have hs := front_specCtx cf r c hf
+    have hm := C16_model_meets_spec c
+    cases hc : clientIDFromCtx c with
+    | ok id =>
+      rw [hc] at hm
+      simp [specE2E, obsOf, attributedJustified, Obs.seen, answeredAttributed, failedNotProcessed,
+        servfailHasReason, hsOnlyStrict, hs, hm]
+    | error e =>
+      rw [hc] at hm
+      rw [specOK_error_irrel c e .badLabel] at hm
+      simp [specE2E, obsOf, attributedJustified, Obs.seen, answeredAttributed, failedNotProcessed,
+        servfailHasReason, hsOnlyStrict, hs, hm]
+
+/-- …in particular along every history of requests and reconfigurations on one
+long-lived server. -/
+theorem C16_e2e_history (cf : Conf) (hist : List (Option Req)) (r : Req) :
+    let st := hist.foldl (fun st o => match o with
+      | some q => (step cf st q).1
+      | none => reconf st) ({} : St)
+    specE2E cf r (obsOf (step cf st r).2) = true :=
+  C16_e2e_meets_spec cf _ r
+
+/-- `clientIDFromCtx` on a DoH context reads the path, the client server name,
+the configured name and the strict flag — nothing else. -/
+theorem ctx_https_congr (c c' : Ctx) (hp : c.proto = .https) (hp' : c'.proto = .https)
+    (hpath : c.path = c'.path) (hcs : clientServerName c = clientServerName c')
+    (hh : c.hostSrvName = c'.hostSrvName) (hst : c.strict = c'.strict) :
+    clientIDFromCtx c = clientIDFromCtx c' := by
+  unfold clientIDFromCtx
+  simp only [hp, hp', hpath]
+  have : fromSNI c = fromSNI c' := by unfold fromSNI; rw [hh, hcs, hst]
+  rw [this]
+
+/-- What the ClientID stage says about a request, or how the request ended
+before reaching it. -/
+def verdictOf (x : Except Out Ctx) : Except Out (Except Err Bytes) :=
+  match x with
+  | .error o => .error o
+  | .ok c => .ok (clientIDFromCtx c)
+
+theorem step_verdict (cf : Conf) (st : St) (r : Req) :
+    (step cf st r).2 =
+      match verdictOf (front cf r) with
+      | .error o => o
+      | .ok (.ok id) => .ans id
+      | .ok (.error _) => .servfail := by
+  cases hf : front cf r with
+  | error o => rw [step_error cf st r o hf]; rfl
+  | ok c =>
+    rw [step_ok cf st r c hf]
+    simp only [verdictOf]
+    cases clientIDFromCtx c <;> rfl
+
+/-- Over a TLS transport the verdict is a function of the transport, the server
+name, the raw target and the presence of a DNS message. -/
+theorem verdict_congr_tls (cf : Conf) (r1 r2 : Req) (h1 : r1.tr = r2.tr) (h2 : r1.tr ≠ .hp)
+    (h3 : r1.sni = r2.sni) (h4 : r1.target = r2.target) (h5 : r1.dnsOK = r2.dnsOK)
+    (h6 : r1.sniValidHost = r2.sniValidHost) :
+    verdictOf (front cf r1) = verdictOf (front cf r2) := by
+  have http : r1.tr = .h1 ∨ r1.tr = .h2 →
+      verdictOf (frontHTTP cf r1) = verdictOf (frontHTTP cf r2) := by
+    intro ht
+    unfold frontHTTP
+    rw [← h1, ← h4, ← h5]
+    cases gateHTTP cf r1.tr r1.target r1.dnsOK with
+    | error o => rfl
+    | ok u =>
+      simp only [verdictOf]
+      congr 1
+      apply ctx_https_congr
+      · rfl
+      · rfl
+      · rfl
+      · rcases ht with ht | ht <;> simp [mkCtxHTTP, clientServerName, ht, ← h1, h3]
+      · rfl
+      · rfl
+  have tls : ∀ p, verdictOf (frontTLS cf r1 p) = verdictOf (frontTLS cf r2 p) := by
+    intro p; unfold frontTLS; rw [h3, h6]
+  unfold front
+  rw [← h1]
+  cases ht : r1.tr with
+  | udp => rfl
+  | tcp => rfl
+  | dcu => rfl
+  | dot => exact tls _
+  | doq => exact tls _
+  | h1 => exact http (Or.inl ht)
+  | h2 => exact http (Or.inr ht)
+  | hp => exact absurd ht h2
+
+/-- The decoded path of a request (`none`: the target has none). -/
+def decodedPath (r : Req) : Option Bytes := (specPath r.target).map (·.2)
+
+/-- `r.Host` as the handler sees it. -/
+def hostOf (r : Req) : Bytes :=
+  match specPath r.target with
+  | some (h, _) => effHost r h
+  | none => []
+
+/-- **No other source.**  Two requests that agree on the transport, the
+server name they sent and their percent-decoded path (over unencrypted HTTP
+also on the Host, which stands in for the server name there) get the same
+verdict from the ClientID stage whenever both reach it — whatever their Host
+header, query string, method, raw spelling of the target, other headers, EDNS
+options, question and peer address are. -/
+theorem C16_no_other_source (cf : Conf) (r r' : Req) (c c' : Ctx)
+    (h : front cf r = .ok c) (h' : front cf r' = .ok c')
+    (htr : r.tr = r'.tr) (hsni : r.sni = r'.sni)
+    (hpath : decodedPath r = decodedPath r')
+    (hplain : r.tr = .hp → hostOf r = hostOf r' ∧ r.hostSplit = r'.hostSplit) :
+    clientIDFromCtx c = clientIDFromCtx c' := by
+  have hs := front_specCtx cf r c h
+  have hs' := front_specCtx cf r' c' h'
+  unfold specCtx at hs hs'
+  unfold decodedPath at hpath
+  unfold hostOf at hplain
+  rw [← htr] at hs'
+  cases ht : r.tr <;> simp only [ht] at hs hs' hplain
+  · cases hs; cases hs'; rfl
+  · cases hs; cases hs'; rfl
+  · cases hs; cases hs'; rw [hsni]
+  · cases hs; cases hs'; rw [hsni]
+  all_goals first
+    | (cases hs; cases hs'; rfl)
+    | (cases h1 : specPath r.target with
+       | none => rw [h1] at hs; cases hs
+       | some a =>
+         cases h2 : specPath r'.target with
+         | none => rw [h2] at hs'; cases hs'
+         | some b =>
+           rw [h1] at hs hpath hplain; rw [h2] at hs' hpath hplain
+           simp only [Option.map_some, Option.some.injEq] at hs hs' hpath
+           subst hs; subst hs'
+           apply ctx_https_congr
+           · rfl
+           · rfl
+           · simp [mkCtxHTTP, hpath]
+           · simp [clientServerName, mkCtxHTTP, ht, ← htr, hsni, hplain]
+           · rfl
+           · rfl)
+
+/-- …and therefore the same attribution: if both are answered, they are
+attributed to the same identity, from whatever server states. -/
+theorem C16_no_other_source_attribution (cf : Conf) (st st' : St) (r r' : Req) (id id' : Bytes)
+    (h : (step cf st r).2 = .ans id) (h' : (step cf st' r').2 = .ans id')
+    (htr : r.tr = r'.tr) (hsni : r.sni = r'.sni)
+    (hpath : decodedPath r = decodedPath r')
+    (hplain : r.tr = .hp → hostOf r = hostOf r' ∧ r.hostSplit = r'.hostSplit) :
+    id = id' := by
+  cases hf : front cf r with
+  | error o =>
+    rw [step_error cf st r o hf] at h
+    rcases front_error_cls cf r o hf with ⟨n, rfl⟩ | rfl | rfl <;> cases h
+  | ok c =>
+    cases hf' : front cf r' with
+    | error o =>
+      rw [step_error cf st' r' o hf'] at h'
+      rcases front_error_cls cf r' o hf' with ⟨n, rfl⟩ | rfl | rfl <;> cases h'
+    | ok c' =>
+      rw [step_ok cf st r c hf] at h
+      rw [step_ok cf st' r' c' hf'] at h'
+      rw [C16_no_other_source cf r r' c c' hf hf' htr hsni hpath hplain] at h
+      cases hc : clientIDFromCtx c' with
+      | error e => rw [hc] at h; cases h
+      | ok i => rw [hc] at h h'; cases h; cases h'; rfl
+
+/-- **Decode, then shape.**  An identity attributed to a DoH request is the
+lower-cased valid label `l` such that the percent-decoded path component of
+THAT request's target cleans to `/dns-query/l` — or it is the label of the
+server name the request came with (`l.<configured name>`; over unencrypted HTTP
+the Host stands in for the server name). -/
+theorem C16_decode_then_shape (cf : Conf) (st : St) (r : Req) (id : Bytes)
+    (hh : isHTTP r.tr = true) (h : (step cf st r).2 = .ans id) (hne : id ≠ []) :
+    (∃ host rp p l, splitTarget r.target = some (host, rp) ∧ pctDecode rp = some p ∧
+        validLabel l = true ∧ slash ∉ l ∧ pathClean p = slash :: dnsQuery ++ slash :: l ∧
+        id = lower l)
+    ∨ (cf.srvName ≠ [] ∧ ∃ cli l, validLabel l = true ∧ dot ∉ l ∧ cli = l ++ dot :: cf.srvName ∧
+        id = lower l ∧ ((r.tr ≠ .hp ∧ cli = r.sni) ∨ (r.tr = .hp ∧ r.hostSplit = some cli))) := by
+  have hfront : front cf r = frontHTTP cf r := by
+    unfold front
+    cases ht : r.tr <;> simp [isHTTP, ht] at hh ⊢
+  cases hf : front cf r with
+  | error o =>
+    rw [step_error cf st r o hf] at h
+    rcases front_error_cls cf r o hf with ⟨n, rfl⟩ | rfl | rfl <;> cases h
+  | ok c =>
+    rw [step_ok cf st r c hf] at h
+    have hc : clientIDFromCtx c = .ok id := by
+      cases hcc : clientIDFromCtx c with
+      | error e => rw [hcc] at h; cases h
+      | ok i => rw [hcc] at h; cases h; rfl
+    rw [hfront] at hf
+    obtain ⟨u, hg, hu, hcu⟩ := frontHTTP_ok cf r c hf
+    obtain ⟨_, hsp, hun⟩ := parseRequestURI_parts _ u hu
+    obtain ⟨v, hv⟩ := gate_path_rooted cf _ _ _ u hg
+    rcases C16_ctx_shape c id hc hne with ⟨_, p, l, hp, hvl, hsl, hcl, hid⟩ |
+        ⟨_, hsn, cli, l, hcs, hvl, hdl, hcli, hid⟩
+    · left
+      rw [hcu] at hp
+      simp only [mkCtxHTTP, Option.some.injEq] at hp
+      subst hp
+      refine ⟨u.host, u.rawPath, u.path, l, hsp, by rw [← unescape_eq_pctDecode]; exact hun, hvl, hsl, ?_, hid⟩
+      rcases hcl with hcl | hcl
+      · exact hcl
+      · exfalso
+        rw [hv] at hcl
+        obtain ⟨w, hw⟩ := pathClean_rooted_head v
+        rw [hw] at hcl
+        have := congrArg List.head? hcl
+        simp [dnsQuery, slash] at this
+    · right
+      rw [hcu] at hsn hcs hcli
+      simp only [mkCtxHTTP] at hsn hcli
+      refine ⟨hsn, cli, l, hvl, hdl, hcli, hid, ?_⟩
+      by_cases htr : r.tr = .hp
+      · right
+        refine ⟨htr, ?_⟩
+        simp only [clientServerName, mkCtxHTTP, htr] at hcs
+        simp only [beq_self_eq_true, if_true] at hcs
+        split at hcs
+        · cases hcs
+          -- cli = [] contradicts cli = l ++ "." ++ name
+          simp at hcli
+        · split at hcs
+          · next hs' hsplit => cases hcs; exact hsplit
+          · cases hcs
+      · left
+        refine ⟨htr, ?_⟩
+        have : (r.tr == Tr.hp) = false := by simp [htr]
+        simp only [clientServerName, mkCtxHTTP, this] at hcs
+        simp at hcs
+        exact hcs.symm
+
+/-- The split of a request-target the spec monitor relies on, stated without
+reference to the parser: the path component is a literal piece of the target,
+followed by nothing or by `?…`, preceded by nothing (origin-form), by
+`scheme:` or by `scheme://authority` (absolute-form, the authority is the
+Host); a rootless `scheme:…` target has the empty path. -/
+theorem C16_target_split_shape (raw host rp : Bytes) (h : splitTarget raw = some (host, rp)) :
+    ∃ pre q, raw = pre ++ rp ++ q ∧ qmark ∉ rp ∧ (q = [] ∨ q.head? = some qmark) ∧
+      ((pre = [] ∧ host = [] ∧ rp.head? = some slash) ∨
+       ∃ sc, sc ≠ [] ∧ (∀ c ∈ sc, schemeChar c) ∧
+         ((pre = sc ++ [colon] ∧ host = [] ∧ rp.head? = some slash) ∨
+          (pre = sc ++ colon :: slash :: slash :: host ∧ slash ∉ host ∧ (rp = [] ∨ rp.head? = some slash)) ∨
+          (rp = [] ∧ host = [] ∧ ∃ o, pre = sc ++ colon :: o ∧ o.head? ≠ some slash))) :=
+  target_split_shape raw host rp h
+
+/-- A DoH request whose decoded path carries a candidate label that is not a
+valid host-name label (or extra segments after it) is never answered: not
+attributed to nobody, not to somebody else — whatever server name, Host or
+headers it has. -/
+theorem C16_e2e_invalid_fails (cf : Conf) (st : St) (r : Req) (hh : isHTTP r.tr = true)
+    (host p l : Bytes) (hs : specPath r.target = some (host, p)) (hl : pathLabel p = some l)
+    (hv : validLabel l = false) (id : Bytes) : (step cf st r).2 ≠ .ans id := by
+  intro h
+  have hfront : front cf r = frontHTTP cf r := by
+    unfold front
+    cases ht : r.tr <;> simp [isHTTP, ht] at hh ⊢
+  cases hf : front cf r with
+  | error o =>
+    rw [step_error cf st r o hf] at h
+    rcases front_error_cls cf r o hf with ⟨n, rfl⟩ | rfl | rfl <;> cases h
+  | ok c =>
+    rw [step_ok cf st r c hf] at h
+    rw [hfront] at hf
+    obtain ⟨u, _, hu, hcu⟩ := frontHTTP_ok cf r c hf
+    have hsp := parseRequestURI_spec _ u hu
+    rw [hs] at hsp
+    simp only [Option.some.injEq, Prod.mk.injEq] at hsp
+    obtain ⟨_, hp⟩ := hsp
+    have : clientIDFromCtx c = .error (if slash ∈ l then .extraParts else .badLabel) := by
+      rw [hcu]
+      simp only [clientIDFromCtx, mkCtxHTTP, ← hp, path_char, hl, hv]
+      by_cases hsl : slash ∈ l <;> simp [hsl]
+    rw [this] at h
+    cases h
+
+/-- A DoT / DoQ server name `<l>.<configured name>` whose label `l` is not a
+valid host-name label is never answered either. -/
+theorem C16_e2e_sni_invalid_fails (cf : Conf) (st : St) (r : Req)
+    (htr : r.tr = .dot ∨ r.tr = .doq) (hn : cf.srvName ≠ [])
+    (hne : cf.srvName ≠ r.sni) (himm : isImmediateSubdomain r.sni cf.srvName = true)
+    (hbad : validLabel (r.sni.take (r.sni.length - cf.srvName.length - 1)) = false) :
+    (step cf st r).2 = .hs ∨ (step cf st r).2 = .servfail := by
+  cases hf : front cf r with
+  | error o =>
+    rw [step_error cf st r o hf]
+    have : o = .hs := by
+      unfold front at hf
+      rcases htr with htr | htr <;> simp only [htr] at hf <;>
+        (unfold frontTLS at hf; split at hf <;> cases hf; rfl)
+    exact Or.inl this
+  | ok c =>
+    rw [step_ok cf st r c hf]
+    have hc : c = mkCtxConn cf (if r.tr = .dot then .tls else .quic) (some r.sni) := by
+      unfold front at hf
+      rcases htr with htr | htr <;> simp only [htr] at hf
+      · rw [frontTLS_ok cf r _ c hf]; simp [htr]
+      · rw [frontTLS_ok cf r _ c hf]; simp [htr]
+    have : clientIDFromCtx c = .error .badLabel := by
+      rw [hc]
+      have := C16_sni_invalid_fails cf.srvName r.sni cf.strict hne himm hbad
+      rcases htr with htr | htr <;>
+        simp [htr, clientIDFromCtx, mkCtxConn, fromSNI, clientServerName, hn, this]
+    rw [this]; exact Or.inr rfl
+
+/-- The request record carries the peer address, the EDNS options, the
+question and the other HTTP headers; the pipeline provably never looks at
+them: changing them changes neither the outcome nor the server state. -/
+theorem C16_ignored_inputs (cf : Conf) (st : St) (r : Req)
+    (peer edns qname : Bytes) (hdrs : List (Bytes × Bytes)) :
+    step cf st { r with peer := peer, edns := edns, qname := qname, hdrs := hdrs } = step cf st r := rfl
+
+/-- Over TLS (DoH over HTTP/1.1 or h2, DoT, DoQ) the Host header / `:authority`
+and the request method are not a source either. -/
+theorem C16_host_header_ignored_over_tls (cf : Conf) (st : St) (r : Req)
+    (host : Bytes) (hsplit : Option Bytes) (m : Method) (htr : r.tr ≠ .hp) :
+    (step cf st { r with host := host, hostSplit := hsplit, method := m }).2 = (step cf st r).2 := by
+  have k := verdict_congr_tls cf { r with host := host, hostSplit := hsplit, method := m } r
+    rfl htr rfl rfl rfl rfl
+  rw [step_verdict, step_verdict, k]
+
+/-- Plain DNS and DNSCrypt requests are always answered and attributed to
+nobody, whatever the cache holds under their request number. -/
+theorem C16_e2e_plain_none (cf : Conf) (st : St) (r : Req)
+    (h : r.tr = .udp ∨ r.tr = .tcp ∨ r.tr = .dcu) : (step cf st r).2 = .ans [] := by
+  rcases h with h | h | h
+  · rw [step_ok cf st r (mkCtxConn cf .udp none) (by unfold front; simp [h])]
+    rw [C16_plain_none _ (Or.inl rfl)]
+  · rw [step_ok cf st r (mkCtxConn cf .tcp none) (by unfold front; simp [h])]
+    rw [C16_plain_none _ (Or.inr (Or.inl rfl))]
+  · rw [step_ok cf st r (mkCtxConn cf .dnscrypt none) (by unfold front; simp [h])]
+    rw [C16_plain_none _ (Or.inr (Or.inr rfl))]
+
+/-- With strict checking, a DoT / DoQ server name outside the configured domain
+is rejected: the handshake is refused or the request is answered SERVFAIL. -/
+theorem C16_e2e_strict_rejects (cf : Conf) (st : St) (r : Req)
+    (hs : cf.strict = true) (hn : cf.srvName ≠ []) (htr : r.tr = .dot ∨ r.tr = .doq)
+    (hne : cf.srvName ≠ r.sni) (himm : isImmediateSubdomain r.sni cf.srvName = false) :
+    (step cf st r).2 = .hs ∨ (step cf st r).2 = .servfail := by
+  cases hf : front cf r with
+  | error o =>
+    rw [step_error cf st r o hf]
+    have : o = .hs := by
+      unfold front at hf
+      rcases htr with htr | htr <;> simp only [htr] at hf <;>
+        (unfold frontTLS at hf; split at hf <;> cases hf; rfl)
+    exact Or.inl this
+  | ok c =>
+    rw [step_ok cf st r c hf]
+    have hc : c = mkCtxConn cf (if r.tr = .dot then .tls else .quic) (some r.sni) := by
+      unfold front at hf
+      rcases htr with htr | htr <;> simp only [htr] at hf
+      · rw [frontTLS_ok cf r _ c hf]; simp [htr]
+      · rw [frontTLS_ok cf r _ c hf]; simp [htr]
+    have : clientIDFromCtx c = .error .sniMismatch := by
+      rw [hc]
+      have := C16_strict_rejects cf.srvName r.sni hne himm
+      rcases htr with htr | htr <;>
+        simp [htr, clientIDFromCtx, mkCtxConn, fromSNI, clientServerName, hn, hs, this]
+    rw [this]; exact Or.inr rfl
+
+-- Non-vacuity: concrete requests through the whole model.
+def exConf : Conf := { srvName := exHost, strict := true, certNames := [exHost, [42, 46] ++ exHost], plainDoH := false }
+def exReq (tr : Tr) (sni target : Bytes) : Req :=
+  { tr := tr, sni := sni, sniValidHost := true, method := .get, target := target, host := [120],
+    hostSplit := some [120], dnsOK := true, peer := [], edns := [], qname := [], hdrs := [] }
+-- GET /dns-query/%43li-1?dns=… over h1 with SNI example.org: attributed to "cli-1"
+example : (step exConf {} (exReq .h1 exHost
+    (slash :: dnsQuery ++ slash :: [37, 52, 51, 108, 105, 45, 49, 63, 100, 110, 115, 61, 65]))).2 =
+    .ans [99, 108, 105, 45, 49] := by decide
+-- //dns-query/x is redirected by the mux, never attributed
+example : (step exConf {} (exReq .h2 exHost (slash :: slash :: dnsQuery ++ [slash, 120]))).2 = .http 307 := by decide
+-- /dns-query/%zz : 400 over HTTP/1.1, stream reset over h2
+example : (step exConf {} (exReq .h1 exHost (slash :: dnsQuery ++ [slash, 37, 122, 122]))).2 = .http 400 := by decide
+example : (step exConf {} (exReq .h2 exHost (slash :: dnsQuery ++ [slash, 37, 122, 122]))).2 = .rst := by decide
+-- DoT with SNI a.b.example.org under strict checking passes the wildcard gate and is answered SERVFAIL
+example : (step exConf {} (exReq .dot ([97, 46, 98] ++ dot :: exHost) [])).2 = .servfail := by decide
+-- DoT with SNI xexample.org: the handshake is refused
+example : (step exConf {} (exReq .dot (120 :: exHost) [])).2 = .hs := by decide
+
+end AGH.C16.E2E
+
+/-! ## Translator tie: "no other source" in the Go code
+
+`AGH.Gen.C16` is regenerated from the typed syntax of internal/dnsforward on
+every run (extract/cmd/c16).  The obligations below are re-checked against the
+tree under check; they are what makes the model's input signature (`Ctx`, and
+`E2E.Req` above it) the input signature of the CODE: a new source of the
+ClientID (an HTTP header, an EDNS option, the Host header over TLS, the peer
+address, the question) adds a selector or an escape and breaks
+`C16_gen_sources_expected`; a second writer of the identity, a cache store of
+something else, a lost `Del` break `C16_gen_single_writer`; a return that is not
+validated and lower-cased breaks `C16_gen_validated_returns`. -/
+namespace AGH.C16
+open AGH.Gen.C16
+
+/-- The selectors each field of the model's `Ctx` stands for (ids of
+`AGH.Gen.C16`, names in the generated file):
+`proto` ← 1; `path` ← 2 3 4 (`HTTPRequest.URL.Path`); `httpTLS` ← 2 5 6
+(`HTTPRequest.TLS.ServerName`); `hostHdr`/`hostSplit` ← 2 7 (`HTTPRequest.Host`);
+`connSNI` ← 8 9 6 / 10 11 12 6 (`Conn`→`ConnectionState().ServerName`,
+`QUICConnection`→`ConnectionState().TLS.ServerName`); `hostSrvName` ← 13 14 15
+(`s.conf.TLSConf.ServerName`); `strict` ← 13 14 16. -/
+def ctxFieldSources : List (List Nat) :=
+  [[1], [2, 3, 4], [2, 5, 6], [2, 7], [8, 9, 6], [10, 11, 12, 6], [13, 14, 15], [13, 14, 16]]
+
+/-- The request-derived reads of the Go functions that compute the ClientID
+are exactly the inputs of the model (`Ctx`): nothing else of the request, the
+connection or the configuration is read, and no request-carrying value is
+handed to a function outside them.  With `C16_no_other_source` /
+`C16_ignored_inputs` (the model provably ignores everything else) this is the
+"no other source" claim for the code. -/
+theorem C16_gen_sources_expected :
+    (∀ s ∈ sources, s ∈ ctxFieldSources.flatten) ∧ (∀ s ∈ ctxFieldSources.flatten, s ∈ sources) ∧
+      escapes = [] := by decide +kernel
+
+/-- The identity of a request (`dnsContext.clientID`) is written in one way
+only: in `processInitial`, from `clientIDCache.Get` under the key derived from
+`pctx.RequestID` (model: `attributed`).  The cache is stored to only in
+`HandleBefore`, only with the value `clientIDFromDNSContext` returned for this
+request, under the same key, and the entry is deleted there when the request
+has no id (model: `handleBefore`); nobody else calls the extraction or touches
+the cache. -/
+theorem C16_gen_single_writer :
+    (2, 1, 1) ∈ clientIDWrites ∧ (∀ w ∈ clientIDWrites, w = (2, 1, 1)) ∧
+      (1, 1, 1, 1) ∈ cacheOps ∧ (1, 3, 0, 1) ∈ cacheOps ∧ (2, 2, 0, 1) ∈ cacheOps ∧
+      (∀ o ∈ cacheOps, o = (1, 1, 1, 1) ∨ o = (1, 3, 0, 1) ∨ o = (2, 2, 0, 1)) ∧
+      (∀ f ∈ extractionCalls, f = 1) := by decide +kernel
+
+/-- Every return of every function whose result becomes the ClientID is the
+empty string, or `strings.ToLower(v)` immediately after `ValidateClientID(v)`
+and its error return, or a value forwarded from another such function;
+`ValidateClientID` starts with `netutil.ValidateHostnameLabel` on its argument
+(model: `validLabel`, `lower`; theorems `C16_result_valid`, `C16_ctx_shape`). -/
+theorem C16_gen_validated_returns :
+    (∀ r ∈ returns, r.2 = 0 ∨ r.2 = 1 ∨ r.2 = 3) ∧ (∃ r ∈ returns, r.2 = 1) ∧
+      (∀ f ∈ idFuncs, f ∈ closure) ∧ (∀ r ∈ returns, r.1 ∈ idFuncs) ∧
+      1 ∈ validateCallees ∧ validateUnconditional = 1 := by decide +kernel
 
 end AGH.C16
